@@ -310,6 +310,35 @@ Fixpoint accepts (st : state) (evs : list event) : bool :=
   | e :: r => enabled st e && accepts (step st e) r
   end.
 
+(* VARIANT used only to show that the ORDER of listener.Close's steps matters (not the code that exists):
+   the same machine, but a Close call drains the backlog right after its CAS and closes closeCh only
+   afterwards (CStart -> CDrain -> CSig -> CRel).  Props/C19.v refutes the sessions-end statement for it. *)
+Definition step_drain_first (st : state) (e : event) : state :=
+  match e with
+  | LStep k =>
+    match cl_of st k with
+    | CStart =>
+      {| nsess := nsess st; sess_of := sess_of st; nwr := nwr st; wr := wr st; ncl := ncl st;
+         cl_of := updf (cl_of st) k CDrain; cap := cap st;
+         backlog := backlog st; delivered := delivered st; closing := closing st; aclosed := aclosed st;
+         enq_log := enq_log st; recv_log := recv_log st; lmark := true; closeCh := closeCh st; lreleased := lreleased st; panic := panic st |}
+    | CDrain =>
+      match backlog st with
+      | [] => set_cl st k (if closeCh st then CRel else CSig)
+      | _ => take_head st
+      end
+    | CSig =>
+      {| nsess := nsess st; sess_of := sess_of st; nwr := nwr st; wr := wr st; ncl := ncl st;
+         cl_of := updf (cl_of st) k CRel; cap := cap st;
+         backlog := backlog st; delivered := delivered st; closing := closing st; aclosed := aclosed st;
+         enq_log := enq_log st; recv_log := recv_log st; lmark := lmark st; closeCh := true; lreleased := lreleased st; panic := panic st |}
+    | _ => step st e
+    end
+  | _ => step st e
+  end.
+Definition exec_drain_first (st : state) (e : event) : state := if enabled st e then step_drain_first st e else st.
+Definition run_drain_first (evs : list event) (st : state) : state := fold_left exec_drain_first evs st.
+
 (* number of wrappers of session s that hold their reference (not yet closed) *)
 Fixpoint count (f : nat -> bool) (n : nat) : nat :=
   match n with O => O | S m => ((if f m then 1 else 0) + count f m)%nat end.
